@@ -271,7 +271,10 @@ def rnd_number(R):
 
 
 STR_ALPH = ["a", "'", "''", "{", "}", "//", " ", "\n", "é", "日本", "😀", "é", " ", "\\", '"', "\t", "{'", "0", "+", " ", "\x00", "\x7f"]
-IDENTS = ['x', 'y_1', 'Abc', '_', '_9', 'Ünï', 'ǅx', 'notx', 'or_', 'e5', 'TRUEish', 'divx', 'a１', 'ⅷ', 'K', 'ſ', 'İ', 'x²']
+IDENTS = ['x', 'y_1', 'Abc', '_', '_9', 'Ünï', 'ǅx', 'notx', 'or_', 'e5', 'TRUEish', 'divx', 'a１', 'ⅷ', 'K', 'ſ', 'İ', 'x²',
+          # identifiers that are NOT keywords although a Unicode case mapping sends them onto one (long s -> S, dotless i -> I, Kelvin sign -> k, I with dot -> i + dot),
+          # identifiers that merely start or end with a keyword, and keywords glued to digits / underscores
+          'falſe', 'FALſE', 'dıv', 'DıV', 'dİv', 'truE_', 'android', 'note', 'nota', 'orx', 'xor1', 'mod_', 'divide', 'truex', 'falsey', '_and', 'and1', 'not_', 'ſ1', 'ı', 'modulo', 'Or2']
 
 
 def rnd_token(R):
@@ -288,7 +291,7 @@ def rnd_token(R):
 
 
 ALL_TOKENS = [('p', x) for x in ['(', ')', '[', ']', ',', '+', '-', '*', '/', '>', '>=', '<', '<=', '=', '<>']] + [('kw', k) for k in KEYWORDS] + \
-             [('num', '12'), ('num', '1.5'), ('num', '.5'), ('num', '7.'), ('str', 'a'), ('str', "'"), ('str', ''), ('id', 'x'), ('id', '_1'), ('id', 'Ünï')]
+             [('num', '12'), ('num', '1.5'), ('num', '.5'), ('num', '7.'), ('str', 'a'), ('str', "'"), ('str', ''), ('id', 'x'), ('id', '_1'), ('id', 'Ünï'), ('id', 'falſe'), ('id', 'dıv'), ('id', 'android')]
 
 
 def gen_layout(tier, R):
@@ -354,6 +357,14 @@ def gen_total(tier, R):
             out.append(text_case('text', op * d + '1' + cl * (d - 1)))
             out.append(text_case('text', cl * d + '1'))
     pool = "aZ_09 \t\n+-*/()[],.<>='{}$éß日本😀́  ٣½²ǅ\x00\x7f﻿"
+    # long FLAT chains (nesting depth 0): the parser must consume them in its loop, not by recursion - recursion depth that grows with the length overflows the stack here
+    for opt in ['+', '-', '*', '/', ' div ', ' mod ', ' and ', ' or ', ' xor ', '=', '<>', '<', '>', '<=', '>=']:
+        for n in ((200, 3000, 20000) if tier == 'quick' else (200, 1000, 3000, 8000, 20000, 30000)):
+            out.append(text_case('text', opt.join(['a'] * n)))
+    out.append(text_case('text', '[' + ','.join(['1'] * 20000) + ']'))
+    out.append(text_case('text', 'f(' + ','.join(['x'] * 20000) + ')'))
+    out.append(text_case('text', "'" + "a''" * 20000 + "'"))
+    out.append(text_case('text', '1 ' + '{c}' * 20000 + ' + 2'))
     for _ in range(3000 if tier == 'quick' else 200000):
         out.append(text_case('text', ''.join(R.choice(pool) for _ in range(R.randint(0, 30)))))
     return out
